@@ -232,7 +232,7 @@ func runC20(r *core.Run) {
 		}()
 	}
 	clients := r.N(8, 32)
-	perClient := r.N(30, 60)
+	perClient := r.N(30, 40)
 	var wg sync.WaitGroup
 	for cidx := 0; cidx < clients; cidx++ {
 		wg.Add(1)
